@@ -182,6 +182,17 @@ fn search_queries(kind: &str, fam: &c19::ColFam) -> Vec<SQ> {
     out
 }
 
+fn search_key(kind: &str, index: &str, fam: &str, q: &SQ, name: &str, history: &[HOp]) -> String {
+    let stable = c19::parse_index(index).2;
+    if kind == "zonemap" && stable {
+        return "zonemap/stable-row-ids/index-drops-rows".to_string();
+    }
+    if let SQ::Contains(s) = q {
+        return format!("ngram/contains-{}/index-drops-rows", c19::str_class(s));
+    }
+    format!("search/{index}/{fam}/{}/{name}-result-misses-true-match/{}", q.label(), c19::hist_label_pub(history))
+}
+
 async fn search_level(fam: &c19::ColFam, index: &str, history: &[HOp], cov: &mut Cov, viol: &mut Vec<Violation>) -> Result<(), String> {
     let (kind, _, _) = c19::parse_index(index);
     let st = c19::build_state_pub(&fam.dt, &fam.dom, index, history).await?;
@@ -256,7 +267,7 @@ async fn search_level(fam: &c19::ColFam, index: &str, history: &[HOp], cov: &mut
                     if name != "at-least" && !missing.is_empty() {
                         viol.push(Violation::new(
                             "search-superset",
-                            &format!("search/{kind}/{}/{}/{name}-result-misses-true-match/{}", fam.label, q.label(), c19::hist_label_pub(history)),
+                            &search_key(&kind, index, fam.label, &q, name, history),
                             format!("{} {index} after {history:?}: search({}) returned a {name} set that lacks the matching rows uid {missing:?}", fam.label, q.label()),
                             case,
                         ));
@@ -345,6 +356,8 @@ pub fn run(ctx: &Ctx) -> Outcome {
         combos: combos.clone(),
         histories: hs.clone(),
         deep_fams: vec![],
+        // the search-level and Sbbf parts run after the dataset-level part
+        quick_budget_s: 28.0,
         rule: "dataset level: items = (column family, inexact index with parameters, stable row ids, history) x the whole predicate family scanned with and without the index; search level: every index segment x every accepted query over the domain; Sbbf: 3 sizes x 4 key types x all 1024 subsets of a 10-key universe. non-trivial = some but not all rows / keys expected",
     };
     let mut out = c19::run_plan(ctx, plan);
@@ -386,6 +399,7 @@ pub fn run(ctx: &Ctx) -> Outcome {
     out.set("dataset_level_evaluations", ev);
     out.set("search_level_items", n_search_items as u64);
     out.set("search_and_sbbf_outcomes", json!(cov.outcomes));
+    c19::merge_history_keys(&mut viol);
     out.violations.extend(viol);
     out.assume("dataset-level tables are the fixed C19 family tables; ngram uses a text family with case / unicode / blanks / shorter-than-trigram strings");
     out.assume("search-level truth is restricted to the fragments in the segment's fragment bitmap; a result set may hold row ids or row addresses");
